@@ -117,13 +117,15 @@ class E1:
         if overrides:
             self.ins = overrides(self.ins)
         self.numeric_consts = numeric_consts
+        n_inf0 = len(V.INF_APPROX)
         self.outs, self.ctx = self.tr.run(self.ins, Ctx(numeric=True) if numeric_consts else None)
+        self.inf_hyps = [(v >= 10**15) if sg > 0 else (v <= -10**15) for v, sg in V.INF_APPROX[n_inf0:]]
         self.raw_outs = self.outs
         if post is not None:
             self.outs = post(self.ins, self.outs)
         self.soft = soft
         self.pending = []
-        self.hyps = list(hyps) + list(self.ctx.assumptions)
+        self.hyps = list(hyps) + list(self.ctx.assumptions) + list(self.inf_hyps)
         self.noise = noise_from_ctx(self.ctx)
         self.trace_s = time.time() - t0
         rep.functions.append({"site": site, "jaxpr_eqns": self.tr.n_eqns, "interpreted_eqns": self.ctx.n_eqns,
@@ -186,6 +188,9 @@ class E1:
                 h2 = hyps if c is True else hyps + [c]
                 q = self.sess.prove(full + glab + clab, h2, g, timeout_s=timeout_s)
                 if q.verdict == "unsat":
+                    if self.inf_hyps and not _is_true(g):
+                        self._inconclusive(full + glab + clab, "proved only under the finite approximation of an infinite constant")
+                        result = None
                     continue
                 if q.verdict == "unknown":
                     self._inconclusive(full + glab + clab, "solver returned unknown")
